@@ -2,7 +2,8 @@
    and C14): print-then-read gives the message back; what an object must look
    like to be read against a field table (exactly); the refusals. *)
 From Coq Require Import List NArith ZArith Bool Lia ZifyN ZifyNat ZifyBool Arith.
-From Tink Require Import Bytes Base64url Jwt JwtProofs JwkProofs Json JsonLexProofs JsonProofs JsonKeyset.
+From Coq Require String.
+From Tink Require Import Bytes Base64url Jwt JwtProofs JwkProofs Json JsonLexProofs JsonProofs JsonPjProofs JsonKeyset.
 Import ListNotations.
 Open Scope N_scope.
 
@@ -427,7 +428,8 @@ Theorem keyset_text_roundtrip ks :
   keyset_ok ks = true -> keyset_of_json_text (json_text_of_keyset ks) = Some ks.
 Proof.
   intros H. unfold keyset_of_json_text, json_text_of_keyset.
-  rewrite json_print_parse_roundtrip by (apply (tree_ok_printable _ 5); [apply keyset_tree_ok; exact H|lia]).
+  rewrite (json_parse_pj_extends num_keep _ (fields_of_keyset ks))
+    by (apply json_print_parse_roundtrip; apply (tree_ok_printable _ 5); [apply keyset_tree_ok; exact H|lia]).
   apply keyset_fields_inv. exact H.
 Qed.
 
@@ -435,15 +437,16 @@ Theorem encrypted_text_roundtrip e :
   encrypted_ok e = true -> encrypted_of_json_text (json_text_of_encrypted e) = Some e.
 Proof.
   intros H. unfold encrypted_of_json_text, json_text_of_encrypted.
-  rewrite json_print_parse_roundtrip by (apply (tree_ok_printable _ 5); [apply encrypted_tree_ok; exact H|lia]).
+  rewrite (json_parse_pj_extends num_keep _ (fields_of_encrypted e))
+    by (apply json_print_parse_roundtrip; apply (tree_ok_printable _ 5); [apply encrypted_tree_ok; exact H|lia]).
   apply encrypted_fields_inv. exact H.
 Qed.
 
 (* ================= refusals, for ALL texts ================= *)
 (* the reader is the generic text parser followed by the schema *)
 Lemma keyset_text_inv s ks : keyset_of_json_text s = Some ks ->
-  exists f, json_parse_text num_keep s = Some f /\ keyset_of_fields f = Some ks.
-Proof. unfold keyset_of_json_text. destruct (json_parse_text num_keep s) as [f|]; [eauto|discriminate]. Qed.
+  exists f, json_parse_text_pj num_keep s = Some f /\ keyset_of_fields f = Some ks.
+Proof. unfold keyset_of_json_text. destruct (json_parse_text_pj num_keep s) as [f|]; [eauto|discriminate]. Qed.
 
 (* whatever the generic JSON layer refuses is refused: text that is not valid
    UTF-8, the empty or blank text, a top level that is not an object, a
@@ -452,14 +455,14 @@ Theorem keyset_text_json_refusals s :
   (utf8_valid s = false -> keyset_of_json_text s = None /\ encrypted_of_json_text s = None)
   /\ (all_ws s = true -> keyset_of_json_text s = None /\ encrypted_of_json_text s = None)
   /\ (forall c t, skip_ws s = c :: t -> c <> 123 -> keyset_of_json_text s = None /\ encrypted_of_json_text s = None)
-  /\ (forall v, lex num_keep s = Some (toks v) -> nodup_names v = false ->
+  /\ (forall v, lex_pj num_keep s = Some (toks v) -> nodup_names v = false ->
         keyset_of_json_text s = None /\ encrypted_of_json_text s = None).
 Proof.
   unfold keyset_of_json_text, encrypted_of_json_text.
-  split; [intros H; rewrite (json_invalid_utf8_rejected _ _ H); auto|].
-  split; [intros H; rewrite (json_blank_rejected _ _ H); auto|].
-  split; [intros c t H N; rewrite (json_first_byte_rejected _ _ _ _ H N); auto|].
-  intros v L D. rewrite (json_duplicate_name_rejected _ _ _ L D). auto.
+  split; [intros H; rewrite (json_pj_invalid_utf8_rejected _ _ H); auto|].
+  split; [intros H; rewrite (json_pj_blank_rejected _ _ H); auto|].
+  split; [intros c t H N; rewrite (json_pj_first_byte_rejected _ _ _ _ H N); auto|].
+  intros v L D. rewrite (json_pj_duplicate_name_rejected _ _ _ L D). auto.
 Qed.
 
 (* trailing data after an accepted text *)
@@ -467,21 +470,42 @@ Theorem keyset_text_trailing_data s ks c t :
   keyset_of_json_text s = Some ks -> is_ws c = false -> keyset_of_json_text (s ++ c :: t) = None.
 Proof.
   intros H W. apply keyset_text_inv in H. destruct H as [f [P _]].
-  unfold keyset_of_json_text. rewrite (json_trailing_data_rejected _ _ _ _ _ P W). reflexivity.
+  unfold keyset_of_json_text. rewrite (json_pj_trailing_data_rejected _ _ _ _ _ P W). reflexivity.
 Qed.
 
 Theorem encrypted_text_trailing_data s e c t :
   encrypted_of_json_text s = Some e -> is_ws c = false -> encrypted_of_json_text (s ++ c :: t) = None.
 Proof.
-  unfold encrypted_of_json_text. destruct (json_parse_text num_keep s) as [f|] eqn:P; [|discriminate].
-  intros _ W. rewrite (json_trailing_data_rejected _ _ _ _ _ P W). reflexivity.
+  unfold encrypted_of_json_text. destruct (json_parse_text_pj num_keep s) as [f|] eqn:P; [|discriminate].
+  intros _ W. rewrite (json_pj_trailing_data_rejected _ _ _ _ _ P W). reflexivity.
 Qed.
 
 (* JSON whitespace around the text changes nothing *)
 Theorem keyset_text_whitespace w s : all_ws w = true ->
   keyset_of_json_text (w ++ s) = keyset_of_json_text s /\ keyset_of_json_text (s ++ w) = keyset_of_json_text s.
 Proof.
-  intros H. unfold keyset_of_json_text. rewrite json_leading_ws, json_trailing_ws by exact H. auto.
+  intros H. unfold keyset_of_json_text. rewrite json_pj_leading_ws, json_pj_trailing_ws by exact H. auto.
+Qed.
+
+Theorem encrypted_text_whitespace w s : all_ws w = true ->
+  encrypted_of_json_text (w ++ s) = encrypted_of_json_text s /\ encrypted_of_json_text (s ++ w) = encrypted_of_json_text s.
+Proof.
+  intros H. unfold encrypted_of_json_text. rewrite json_pj_leading_ws, json_pj_trailing_ws by exact H. auto.
+Qed.
+
+(* the reader against the C09 text parser: whatever that parser accepts is read
+   through the same value; the reader accepts more only through a dangling
+   exponent marker (then the C09 tokenizer fails on the text) *)
+Theorem keyset_text_vs_c09_parser s :
+  (forall f, json_parse_text num_keep s = Some f ->
+     keyset_of_json_text s = keyset_of_fields f /\ encrypted_of_json_text s = encrypted_of_fields f)
+  /\ (json_parse_text num_keep s = None ->
+      keyset_of_json_text s <> None \/ encrypted_of_json_text s <> None -> lex num_keep s = None).
+Proof.
+  unfold keyset_of_json_text, encrypted_of_json_text. split.
+  - intros f P. rewrite (json_parse_pj_extends num_keep s f P). auto.
+  - intros Q H. destruct (json_parse_text_pj num_keep s) as [f|] eqn:P; [|destruct H as [H|H]; congruence].
+    exact (json_parse_pj_differs num_keep s f P Q).
 Qed.
 
 (* unknown member name / two members for one field, in the keyset object ... *)
@@ -512,6 +536,37 @@ Theorem keydata_unknown_or_duplicate_field f :
         field_number tab_keydata k1 = Some n -> field_number tab_keydata k2 = Some n -> keydata_of_fields f = None).
 Proof.
   unfold keydata_of_fields. split.
+  - intros k v I U. rewrite (resolve_unknown_field _ _ _ _ I U). reflexivity.
+  - intros f1 k1 v1 f2 k2 v2 f3 n -> F1 F2. rewrite (resolve_duplicate_field _ _ _ _ _ _ _ _ _ F1 F2). reflexivity.
+Qed.
+
+(* ... and in the three objects of the encrypted form *)
+Theorem encrypted_unknown_or_duplicate_field f :
+  (forall k v, In (k, v) f -> field_number tab_encrypted k = None -> encrypted_of_fields f = None)
+  /\ (forall f1 k1 v1 f2 k2 v2 f3 n, f = f1 ++ (k1, v1) :: f2 ++ (k2, v2) :: f3 ->
+        field_number tab_encrypted k1 = Some n -> field_number tab_encrypted k2 = Some n -> encrypted_of_fields f = None).
+Proof.
+  unfold encrypted_of_fields. split.
+  - intros k v I U. rewrite (resolve_unknown_field _ _ _ _ I U). reflexivity.
+  - intros f1 k1 v1 f2 k2 v2 f3 n -> F1 F2. rewrite (resolve_duplicate_field _ _ _ _ _ _ _ _ _ F1 F2). reflexivity.
+Qed.
+
+Theorem info_unknown_or_duplicate_field f :
+  (forall k v, In (k, v) f -> field_number tab_info k = None -> info_of_fields f = None)
+  /\ (forall f1 k1 v1 f2 k2 v2 f3 n, f = f1 ++ (k1, v1) :: f2 ++ (k2, v2) :: f3 ->
+        field_number tab_info k1 = Some n -> field_number tab_info k2 = Some n -> info_of_fields f = None).
+Proof.
+  unfold info_of_fields. split.
+  - intros k v I U. rewrite (resolve_unknown_field _ _ _ _ I U). reflexivity.
+  - intros f1 k1 v1 f2 k2 v2 f3 n -> F1 F2. rewrite (resolve_duplicate_field _ _ _ _ _ _ _ _ _ F1 F2). reflexivity.
+Qed.
+
+Theorem keyinfo_unknown_or_duplicate_field f :
+  (forall k v, In (k, v) f -> field_number tab_keyinfo k = None -> keyinfo_of_fields f = None)
+  /\ (forall f1 k1 v1 f2 k2 v2 f3 n, f = f1 ++ (k1, v1) :: f2 ++ (k2, v2) :: f3 ->
+        field_number tab_keyinfo k1 = Some n -> field_number tab_keyinfo k2 = Some n -> keyinfo_of_fields f = None).
+Proof.
+  unfold keyinfo_of_fields. split.
   - intros k v I U. rewrite (resolve_unknown_field _ _ _ _ I U). reflexivity.
   - intros f1 k1 v1 f2 k2 v2 f3 n -> F1 F2. rewrite (resolve_duplicate_field _ _ _ _ _ _ _ _ _ F1 F2). reflexivity.
 Qed.
@@ -577,3 +632,373 @@ Proof.
   - destruct (f_str (getf 1 l)); [|reflexivity]. destruct j; try reflexivity. cbn [f_bytes]. rewrite (B s eq_refl). reflexivity.
   - destruct (f_str (getf 1 l)); [|reflexivity]. destruct (f_bytes (getf 2 l)); [|reflexivity]. cbn [f_enum]. rewrite B. reflexivity.
 Qed.
+
+(* ======================================================================== *)
+(* THE PRINTER IN PROTOJSON'S STYLE (enum NAMES, standard padded base64,     *)
+(* every field present, unset key data as null): its text is read back.      *)
+(* This is what exercises name_lookup, the name tables and the padded /      *)
+(* standard branch of go_b64.                                                *)
+(* ======================================================================== *)
+
+(* ---- standard alphabet, with padding ---- *)
+Lemma std_char_val c : b64_val c <> None ->
+  gval false (std_char c) = b64_val c /\ is_nl (std_char c) = false
+  /\ std_char c <> 61 /\ std_char c <> 45 /\ std_char c <> 95 /\ std_char c < 128.
+Proof.
+  intros H. unfold std_char.
+  destruct (c =? 45) eqn:A; [apply N.eqb_eq in A; subst c; repeat split; try reflexivity; try discriminate; lia|].
+  destruct (c =? 95) eqn:B; [apply N.eqb_eq in B; subst c; repeat split; try reflexivity; try discriminate; lia|].
+  unfold gval, b64_val, is_nl in *. rewrite A, B in H.
+  destruct ((65 <=? c) && (c <=? 90)) eqn:R1; [repeat split; try reflexivity; lia|].
+  destruct ((97 <=? c) && (c <=? 122)) eqn:R2; [repeat split; try reflexivity; lia|].
+  destruct ((48 <=? c) && (c <=? 57)) eqn:R3; [repeat split; try reflexivity; lia|].
+  congruence.
+Qed.
+
+Lemma gscan_std s : forall vs tail, map_opt b64_val s = Some vs ->
+  (tail = [] \/ exists t, tail = 61 :: t) -> gscan false (map std_char s ++ tail) = Some (vs, tail).
+Proof.
+  induction s as [|c t IH]; intros vs tail M T.
+  - inversion M. cbn [map app]. destruct T as [->|[t ->]]; reflexivity.
+  - cbn [map_opt] in M. destruct (b64_val c) as [v|] eqn:Bc; [|discriminate].
+    destruct (map_opt b64_val t) as [vt|] eqn:Mt; [|discriminate]. inversion M; subst vs.
+    destruct (std_char_val c) as [G [NL _]]; [congruence|].
+    cbn [map app gscan]. rewrite NL, G, Bc, (IH vt tail eq_refl T). reflexivity.
+Qed.
+
+Lemma std_no_url_chars s tail :
+  Forall (fun c => b64_val c <> None) s -> Forall (fun c => c = 61) tail ->
+  existsb (fun c => (c =? 45) || (c =? 95)) (map std_char s ++ tail) = false.
+Proof.
+  intros A T. rewrite existsb_app. apply orb_false_iff. split.
+  - induction A as [|c t Hc _ IH]; [reflexivity|]. cbn [map existsb]. rewrite IH.
+    destruct (std_char_val c Hc) as [_ [_ [_ [N1 [N2 _]]]]].
+    replace (std_char c =? 45) with false by lia. replace (std_char c =? 95) with false by lia. reflexivity.
+  - induction T as [|c t -> _ IH]; [reflexivity|]. cbn [existsb]. rewrite IH. reflexivity.
+Qed.
+
+Lemma b64_std_encode_ascii v : Forall (fun c => c < 128) (b64_std_encode v).
+Proof.
+  assert (S : Forall (fun c => c < 128) (map std_char (b64_encode v))).
+  { pose proof (b64_encode_alphabet v) as A. apply Forall_forall. intros c Hc. apply in_map_iff in Hc.
+    destruct Hc as [x [<- Hx]]. rewrite Forall_forall in A. apply (std_char_val x (A x Hx)). }
+  unfold b64_std_encode, b64_pad.
+  destruct (length (map std_char (b64_encode v)) mod 4)%nat as [|[|[|[|k]]]]; try exact S;
+    apply Forall_app; (split; [exact S|repeat constructor; lia]).
+Qed.
+
+Lemma b64_std_encode_utf8 v : utf8_valid (b64_std_encode v) = true.
+Proof. apply utf8_ascii. apply b64_std_encode_ascii. Qed.
+
+(* base64.StdEncoding text is read back by protojson's rule (standard
+   alphabet chosen by content, padding required because the length is a
+   multiple of 4) *)
+Lemma pj_bytes_std_tail s vs tail v :
+  Forall (fun c => b64_val c <> None) s -> map_opt b64_val s = Some vs -> b64_decode_vals vs = Some v ->
+  ((length vs mod 4 = 0)%nat /\ tail = []) \/ ((length vs mod 4 = 2)%nat /\ tail = [61; 61])
+  \/ ((length vs mod 4 = 3)%nat /\ tail = [61]) ->
+  pj_bytes (map std_char s ++ tail) = Some v.
+Proof.
+  intros A M D T.
+  assert (Lv : length (map std_char s) = length vs) by (rewrite map_length; symmetry; apply (map_opt_length _ _ _ M)).
+  unfold pj_bytes, go_b64. rewrite app_length, Lv.
+  destruct T as [[J ->]|[[J ->]|[J ->]]].
+  - rewrite (std_no_url_chars s [] A) by constructor.
+    rewrite (gscan_std s vs [] M) by (left; reflexivity). cbn [length]. rewrite Nat.add_0_r, J. cbn [Nat.eqb orb]. exact D.
+  - rewrite (std_no_url_chars s [61; 61] A) by (repeat constructor).
+    rewrite (gscan_std s vs [61; 61] M) by (right; eexists; reflexivity).
+    cbn [length]. rewrite Nat.add_mod, J by lia. cbn. exact D.
+  - rewrite (std_no_url_chars s [61] A) by (repeat constructor).
+    rewrite (gscan_std s vs [61] M) by (right; eexists; reflexivity).
+    cbn [length]. rewrite Nat.add_mod, J by lia. cbn. exact D.
+Qed.
+
+Theorem pj_bytes_std_encode v : wfb v -> pj_bytes (b64_std_encode v) = Some v.
+Proof.
+  intros W. pose proof (b64_decode_encode v W) as D. unfold b64_decode in D.
+  destruct (map_opt b64_val (b64_encode v)) as [vs|] eqn:M; [|discriminate].
+  pose proof (b64_encode_alphabet v) as A.
+  assert (Lv : length (map std_char (b64_encode v)) = length vs) by (rewrite map_length; symmetry; apply (map_opt_length _ _ _ M)).
+  assert (NO : (length vs mod 4 <> 1)%nat) by (apply b64_decode_vals_ok; congruence).
+  assert (UB : (length vs mod 4 < 4)%nat) by (apply Nat.mod_upper_bound; lia).
+  unfold b64_std_encode, b64_pad. rewrite Lv.
+  destruct (length vs mod 4)%nat as [|[|[|[|k]]]] eqn:J; try lia.
+  - rewrite <- (app_nil_r (map std_char (b64_encode v))). apply (pj_bytes_std_tail _ vs [] v A M D). auto.
+  - apply (pj_bytes_std_tail _ vs _ v A M D). auto.
+  - apply (pj_bytes_std_tail _ vs _ v A M D). auto.
+Qed.
+
+(* ---- enum names ---- *)
+(* every entry is found under its name, and the names are valid UTF-8 *)
+Definition names_ok (names : list (bytes * N)) : bool :=
+  forallb (fun p => match name_lookup names (fst p) with Some v => v =? snd p | None => false end) names
+  && forallb (fun p => utf8_valid (fst p)) names.
+
+Lemma name_of_in names e n : name_of names e = Some n -> In (n, e) names.
+Proof.
+  induction names as [|[m x] r IH]; cbn [name_of]; [discriminate|].
+  destruct (x =? e) eqn:E.
+  - intros H. inversion H; subst. apply N.eqb_eq in E. subst. left. reflexivity.
+  - intros H. right. apply IH. exact H.
+Qed.
+
+Lemma enum_pj_form names e : (exists n, name_of names e = Some n /\ enum_pj names e = JStr n) \/ enum_pj names e = enum_num e.
+Proof. unfold enum_pj. destruct (name_of names e) as [n|]; [left; eauto|right; reflexivity]. Qed.
+
+Lemma enum_of_pj names e : names_ok names = true -> e < two32 -> enum_of_json names (enum_pj names e) = Some e.
+Proof.
+  intros OK L. destruct (enum_pj_form names e) as [[n [N E]]| E]; rewrite E; [|apply enum_of_num; exact L].
+  cbn [enum_of_json]. apply name_of_in in N.
+  unfold names_ok in OK. apply andb_true_iff in OK. destruct OK as [OK _]. rewrite forallb_forall in OK.
+  specialize (OK _ N). cbn [fst snd] in OK. destruct (name_lookup names n) as [v|]; [|discriminate].
+  apply N.eqb_eq in OK. subst. reflexivity.
+Qed.
+
+Lemma enum_pj_tree names e : names_ok names = true -> e < two32 ->
+  json_utf8 (enum_pj names e) = true /\ nodup_names (enum_pj names e) = true
+  /\ nums_exact (enum_pj names e) = true /\ jdepth (enum_pj names e) = 1%nat.
+Proof.
+  intros OK L. destruct (enum_pj_form names e) as [[n [N E]]| E]; rewrite E.
+  - apply name_of_in in N. unfold names_ok in OK. apply andb_true_iff in OK. destruct OK as [_ OK].
+    rewrite forallb_forall in OK. specialize (OK _ N). repeat split; try reflexivity. exact OK.
+  - repeat split; try reflexivity. apply enum_num_exact. exact L.
+Qed.
+
+Lemma status_names_ok : names_ok status_names = true. Proof. vm_compute. reflexivity. Qed.
+Lemma prefix_names_ok : names_ok prefix_names = true. Proof. vm_compute. reflexivity. Qed.
+Lemma material_names_ok : names_ok material_names = true. Proof. vm_compute. reflexivity. Qed.
+
+(* ---- objects ---- *)
+Lemma resolve_members tab f nums :
+  member_numbers tab f = Some nums -> distinct_from [] nums = true -> resolve tab f [] = Some (set_members nums f).
+Proof. intros M D. apply resolve_spec. exists nums. auto. Qed.
+
+Lemma enum_pj_not_null names e : enum_pj names e <> JNull.
+Proof. destruct (enum_pj_form names e) as [[n [_ E]]|E]; rewrite E; discriminate. Qed.
+
+(* an enum value is never null: the null test of set_members falls through *)
+Lemma match_enum_pj {A} names e (x y : A) :
+  match enum_pj names e with JNull => x | _ => y end = y.
+Proof. destruct (enum_pj_form names e) as [[m [_ E]]|E]; rewrite E; reflexivity. Qed.
+
+Lemma keydata_pj_inv d : keydata_ok d = true -> keydata_of_fields (fields_pj_of_keydata d) = Some d.
+Proof.
+  unfold keydata_ok. intros H. apply andb_true_iff in H. destruct H as [H M]. apply andb_true_iff in H. destruct H as [U V].
+  unfold keydata_of_fields, fields_pj_of_keydata.
+  rewrite (resolve_members tab_keydata [(n_typeUrl, _); (n_value, _); (n_keyMaterialType, _)] [1; 2; 3] eq_refl eq_refl).
+  cbn [set_members]. rewrite !match_enum_pj. cbn [getf N.eqb Pos.eqb f_str f_bytes].
+  rewrite (pj_bytes_std_encode _ (bytes_okb_wfb _ V)).
+  unfold f_enum. rewrite (enum_of_pj _ _ material_names_ok) by lia. destruct d; reflexivity.
+Qed.
+
+Lemma key_pj_inv k : key_ok k = true -> key_of_fields (fields_pj_of_key k) = Some k.
+Proof.
+  unfold key_ok. intros H. apply andb_true_iff in H. destruct H as [H P]. apply andb_true_iff in H. destruct H as [H I].
+  apply andb_true_iff in H. destruct H as [D S].
+  unfold key_of_fields, fields_pj_of_key.
+  rewrite (resolve_members tab_key [(n_keyData, _); (n_status, _); (n_keyId, _); (n_outputPrefixType, _)] [1; 2; 3; 4] eq_refl eq_refl).
+  destruct k as [[d|] st id p]; cbn [jk_data jk_status jk_id jk_prefix] in *;
+    unfold u32_num; cbn [set_members]; rewrite !match_enum_pj; cbn [getf N.eqb Pos.eqb f_msg].
+  - rewrite (keydata_pj_inv d D). fold (u32_num id). unfold f_enum, f_u32.
+    rewrite (enum_of_pj _ _ status_names_ok), (enum_of_pj _ _ prefix_names_ok), u32_of_num by lia. reflexivity.
+  - fold (u32_num id). unfold f_enum, f_u32.
+    rewrite (enum_of_pj _ _ status_names_ok), (enum_of_pj _ _ prefix_names_ok), u32_of_num by lia. reflexivity.
+Qed.
+
+Theorem keyset_pj_inv ks : keyset_ok ks = true -> keyset_of_fields (fields_pj_of_keyset ks) = Some ks.
+Proof.
+  unfold keyset_ok. intros H. apply andb_true_iff in H. destruct H as [P K].
+  unfold keyset_of_fields, fields_pj_of_keyset, u32_num. rewrite resolve_keyset. cbn [getf N.eqb Pos.eqb].
+  fold (u32_num (jks_primary ks)). unfold f_u32. rewrite u32_of_num by lia.
+  rewrite (f_rep_inv key_of_fields fields_pj_of_key).
+  - destruct ks; reflexivity.
+  - intros k Hk. apply key_pj_inv. rewrite forallb_forall in K. apply K. exact Hk.
+Qed.
+
+Lemma keyinfo_pj_inv k : keyinfo_ok k = true -> keyinfo_of_fields (fields_pj_of_keyinfo k) = Some k.
+Proof.
+  unfold keyinfo_ok. intros H. apply andb_true_iff in H. destruct H as [H P]. apply andb_true_iff in H. destruct H as [H I].
+  apply andb_true_iff in H. destruct H as [U S].
+  unfold keyinfo_of_fields, fields_pj_of_keyinfo. destruct k as [u st id p]; cbn [ji_url ji_status ji_id ji_prefix] in *.
+  rewrite (resolve_members tab_keyinfo [(n_typeUrl, _); (n_status, _); (n_keyId, _); (n_outputPrefixType, _)] [1; 2; 3; 4] eq_refl eq_refl).
+  unfold u32_num. cbn [set_members]. rewrite !match_enum_pj. cbn [getf N.eqb Pos.eqb f_str]. fold (u32_num id). unfold f_enum, f_u32.
+  rewrite (enum_of_pj _ _ status_names_ok), (enum_of_pj _ _ prefix_names_ok), u32_of_num by lia. reflexivity.
+Qed.
+
+Lemma info_pj_inv i : info_ok i = true -> info_of_fields (fields_pj_of_info i) = Some i.
+Proof.
+  unfold info_ok. intros H. apply andb_true_iff in H. destruct H as [P K].
+  unfold info_of_fields, fields_pj_of_info, u32_num. rewrite resolve_info. cbn [getf N.eqb Pos.eqb].
+  fold (u32_num (jn_primary i)). unfold f_u32. rewrite u32_of_num by lia.
+  rewrite (f_rep_inv keyinfo_of_fields fields_pj_of_keyinfo).
+  - destruct i; reflexivity.
+  - intros k Hk. apply keyinfo_pj_inv. rewrite forallb_forall in K. apply K. exact Hk.
+Qed.
+
+Theorem encrypted_pj_inv e : encrypted_ok e = true -> encrypted_of_fields (fields_pj_of_encrypted e) = Some e.
+Proof.
+  unfold encrypted_ok. intros H. apply andb_true_iff in H. destruct H as [C I].
+  unfold encrypted_of_fields, fields_pj_of_encrypted.
+  rewrite (resolve_members tab_encrypted [(n_encryptedKeyset, _); (n_keysetInfo, _)] [2; 3] eq_refl eq_refl).
+  destruct e as [ct [i|]]; cbn [je_ct je_info] in *; cbn [set_members getf N.eqb Pos.eqb f_bytes f_msg].
+  - rewrite (pj_bytes_std_encode _ (bytes_okb_wfb _ C)), (info_pj_inv i I). reflexivity.
+  - rewrite (pj_bytes_std_encode _ (bytes_okb_wfb _ C)). reflexivity.
+Qed.
+
+(* ---- the value trees are in the domain of the text printer ---- *)
+Lemma keydata_pj_tree_ok d : keydata_ok d = true -> tree_ok (JObj (fields_pj_of_keydata d)) 2.
+Proof.
+  unfold keydata_ok. intros H. apply andb_true_iff in H. destruct H as [H M]. apply andb_true_iff in H. destruct H as [U V].
+  destruct (enum_pj_tree _ _ material_names_ok (proj1 (N.ltb_lt _ _) M)) as [A [B [C D]]].
+  unfold tree_ok, fields_pj_of_keydata. split; [|split; [|split]].
+  - cbn [json_utf8 forallb fst snd]. names_utf8. rewrite U, b64_std_encode_utf8, A. reflexivity.
+  - cbn [nodup_names names_unique has forallb snd]. rewrite B. reflexivity.
+  - cbn [nums_exact forallb snd]. rewrite C. reflexivity.
+  - cbn [jdepth map snd list_max fold_right]. rewrite D. cbn. lia.
+Qed.
+
+Lemma key_pj_tree_ok k : key_ok k = true -> tree_ok (JObj (fields_pj_of_key k)) 3.
+Proof.
+  unfold key_ok. intros H. apply andb_true_iff in H. destruct H as [H P]. apply andb_true_iff in H. destruct H as [H I].
+  apply andb_true_iff in H. destruct H as [D S].
+  destruct (enum_pj_tree _ _ status_names_ok (proj1 (N.ltb_lt _ _) S)) as [A1 [B1 [C1 D1]]].
+  destruct (enum_pj_tree _ _ prefix_names_ok (proj1 (N.ltb_lt _ _) P)) as [A2 [B2 [C2 D2]]].
+  assert (E3 := u32_num_exact _ (proj1 (N.ltb_lt _ _) I)).
+  unfold tree_ok, fields_pj_of_key. destruct (jk_data k) as [d|].
+  - destruct (keydata_pj_tree_ok d D) as [A [B [C Dp]]]. split; [|split; [|split]].
+    + cbn [json_utf8 forallb fst snd] in *. names_utf8. rewrite A, A1, A2. reflexivity.
+    + cbn [nodup_names names_unique has forallb snd] in *. rewrite B, B1, B2. reflexivity.
+    + cbn [nums_exact forallb snd] in *. rewrite C, C1, C2, E3. reflexivity.
+    + cbn [jdepth map snd list_max fold_right] in *. rewrite D1, D2. unfold u32_num. cbn [jdepth]. lia.
+  - split; [|split; [|split]].
+    + cbn [json_utf8 forallb fst snd]. names_utf8. rewrite A1, A2. reflexivity.
+    + cbn [nodup_names names_unique has forallb snd]. rewrite B1, B2. reflexivity.
+    + cbn [nums_exact forallb snd]. rewrite C1, C2, E3. reflexivity.
+    + cbn [jdepth map snd list_max fold_right]. rewrite D1, D2. unfold u32_num. cbn [jdepth]. lia.
+Qed.
+
+Lemma keyset_pj_tree_ok ks : keyset_ok ks = true -> tree_ok (JObj (fields_pj_of_keyset ks)) 5.
+Proof.
+  unfold keyset_ok. intros H. apply andb_true_iff in H. destruct H as [P K].
+  assert (E := u32_num_exact _ (proj1 (N.ltb_lt _ _) P)).
+  destruct (arr_tree_ok fields_pj_of_key (jks_keys ks) 3) as [A [B [C D]]].
+  { intros k Hk. apply key_pj_tree_ok. rewrite forallb_forall in K. apply K. exact Hk. }
+  unfold tree_ok, fields_pj_of_keyset. split; [|split; [|split]].
+  - cbn [json_utf8 forallb] in *. names_utf8. rewrite A. reflexivity.
+  - cbn [nodup_names forallb snd] in *. rewrite B. reflexivity.
+  - cbn [nums_exact forallb snd] in *. rewrite C, E. reflexivity.
+  - cbn [jdepth map snd list_max fold_right] in *. unfold u32_num. cbn [jdepth]. lia.
+Qed.
+
+Lemma keyinfo_pj_tree_ok k : keyinfo_ok k = true -> tree_ok (JObj (fields_pj_of_keyinfo k)) 2.
+Proof.
+  unfold keyinfo_ok. intros H. apply andb_true_iff in H. destruct H as [H P]. apply andb_true_iff in H. destruct H as [H I].
+  apply andb_true_iff in H. destruct H as [U S].
+  destruct (enum_pj_tree _ _ status_names_ok (proj1 (N.ltb_lt _ _) S)) as [A1 [B1 [C1 D1]]].
+  destruct (enum_pj_tree _ _ prefix_names_ok (proj1 (N.ltb_lt _ _) P)) as [A2 [B2 [C2 D2]]].
+  assert (E3 := u32_num_exact _ (proj1 (N.ltb_lt _ _) I)).
+  unfold tree_ok, fields_pj_of_keyinfo. split; [|split; [|split]].
+  - cbn [json_utf8 forallb fst snd]. names_utf8. rewrite U, A1, A2. reflexivity.
+  - cbn [nodup_names names_unique has forallb snd]. rewrite B1, B2. reflexivity.
+  - cbn [nums_exact forallb snd]. rewrite C1, C2, E3. reflexivity.
+  - cbn [jdepth map snd list_max fold_right]. rewrite D1, D2. unfold u32_num. cbn [jdepth]. lia.
+Qed.
+
+Lemma info_pj_tree_ok i : info_ok i = true -> tree_ok (JObj (fields_pj_of_info i)) 4.
+Proof.
+  unfold info_ok. intros H. apply andb_true_iff in H. destruct H as [P K].
+  assert (E := u32_num_exact _ (proj1 (N.ltb_lt _ _) P)).
+  destruct (arr_tree_ok fields_pj_of_keyinfo (jn_keys i) 2) as [A [B [C D]]].
+  { intros k Hk. apply keyinfo_pj_tree_ok. rewrite forallb_forall in K. apply K. exact Hk. }
+  unfold tree_ok, fields_pj_of_info. split; [|split; [|split]].
+  - cbn [json_utf8 forallb] in *. names_utf8. rewrite A. reflexivity.
+  - cbn [nodup_names forallb snd] in *. rewrite B. reflexivity.
+  - cbn [nums_exact forallb snd] in *. rewrite C, E. reflexivity.
+  - cbn [jdepth map snd list_max fold_right] in *. unfold u32_num. cbn [jdepth]. lia.
+Qed.
+
+Lemma encrypted_pj_tree_ok e : encrypted_ok e = true -> tree_ok (JObj (fields_pj_of_encrypted e)) 5.
+Proof.
+  unfold encrypted_ok. intros H. apply andb_true_iff in H. destruct H as [C I].
+  unfold tree_ok, fields_pj_of_encrypted. destruct (je_info e) as [i|].
+  - destruct (info_pj_tree_ok i I) as [A [B [Cx D]]]. split; [|split; [|split]].
+    + cbn [json_utf8 forallb] in *. names_utf8. rewrite b64_std_encode_utf8, A. reflexivity.
+    + cbn [nodup_names forallb snd] in *. rewrite B. reflexivity.
+    + cbn [nums_exact forallb snd] in *. rewrite Cx. reflexivity.
+    + cbn [jdepth map snd list_max fold_right] in *. lia.
+  - split; [|split; [|split]].
+    + cbn [json_utf8 forallb]. names_utf8. rewrite b64_std_encode_utf8. reflexivity.
+    + reflexivity.
+    + reflexivity.
+    + cbn. lia.
+Qed.
+
+(* (a') the reader on the text of the protojson-style printer *)
+Theorem keyset_pj_text_roundtrip ks :
+  keyset_ok ks = true -> keyset_of_json_text (json_text_pj_of_keyset ks) = Some ks.
+Proof.
+  intros H. unfold keyset_of_json_text, json_text_pj_of_keyset.
+  rewrite (json_parse_pj_extends num_keep _ (fields_pj_of_keyset ks))
+    by (apply json_print_parse_roundtrip; apply (tree_ok_printable _ 5); [apply keyset_pj_tree_ok; exact H|lia]).
+  apply keyset_pj_inv. exact H.
+Qed.
+
+Theorem encrypted_pj_text_roundtrip e :
+  encrypted_ok e = true -> encrypted_of_json_text (json_text_pj_of_encrypted e) = Some e.
+Proof.
+  intros H. unfold encrypted_of_json_text, json_text_pj_of_encrypted.
+  rewrite (json_parse_pj_extends num_keep _ (fields_pj_of_encrypted e))
+    by (apply json_print_parse_roundtrip; apply (tree_ok_printable _ 5); [apply encrypted_pj_tree_ok; exact H|lia]).
+  apply encrypted_pj_inv. exact H.
+Qed.
+
+(* ---- every enum NAME of the three tables, in a text of protojson's form ---- *)
+Module EnumNamesExample.
+  Import String JsonStrings.
+  (* six keys: the 4 status names, the 6 prefix names, the 5 key material names,
+     an unset key data (null), numbers without a name (7, -1 = 4294967295) *)
+  Definition ks : jkeyset :=
+    mkJKS 4294967295
+      [mkJK (Some (mkJD (bs "t") [0; 255] 0)) 0 1 0;
+       mkJK (Some (mkJD (bs "t") [1] 1)) 1 2 1;
+       mkJK (Some (mkJD (bs "t") [1; 2] 2)) 2 3 2;
+       mkJK (Some (mkJD (bs "t") [251; 255; 254] 3)) 3 4 3;
+       mkJK (Some (mkJD (bs "t") [] 4)) 7 5 4;
+       mkJK None 4294967295 0 5].
+  Definition text : bytes :=
+    bs "{""primaryKeyId"":4294967295,""key"":["
+    ++ bs "{""keyData"":{""typeUrl"":""t"",""value"":""AP8="",""keyMaterialType"":""UNKNOWN_KEYMATERIAL""},""status"":""UNKNOWN_STATUS"",""keyId"":1,""outputPrefixType"":""UNKNOWN_PREFIX""},"
+    ++ bs "{""keyData"":{""typeUrl"":""t"",""value"":""AQ=="",""keyMaterialType"":""SYMMETRIC""},""status"":""ENABLED"",""keyId"":2,""outputPrefixType"":""TINK""},"
+    ++ bs "{""keyData"":{""typeUrl"":""t"",""value"":""AQI="",""keyMaterialType"":""ASYMMETRIC_PRIVATE""},""status"":""DISABLED"",""keyId"":3,""outputPrefixType"":""LEGACY""},"
+    ++ bs "{""keyData"":{""typeUrl"":""t"",""value"":""+//+"",""keyMaterialType"":""ASYMMETRIC_PUBLIC""},""status"":""DESTROYED"",""keyId"":4,""outputPrefixType"":""RAW""},"
+    ++ bs "{""keyData"":{""typeUrl"":""t"",""value"":"""",""keyMaterialType"":""REMOTE""},""status"":7,""keyId"":5,""outputPrefixType"":""CRUNCHY""},"
+    ++ bs "{""keyData"":null,""status"":-1,""keyId"":0,""outputPrefixType"":""WITH_ID_REQUIREMENT""}]}".
+  Definition info : jencrypted :=
+    mkJE [1; 2; 3; 4] (Some (mkJInfo 2 [mkJI (bs "t") 1 2 5; mkJI [] 3 0 4294967295])).
+  Definition info_text : bytes :=
+    bs "{""encryptedKeyset"":""AQIDBA=="",""keysetInfo"":{""primaryKeyId"":2,""keyInfo"":["
+    ++ bs "{""typeUrl"":""t"",""status"":""ENABLED"",""keyId"":2,""outputPrefixType"":""WITH_ID_REQUIREMENT""},"
+    ++ bs "{""typeUrl"":"""",""status"":""DESTROYED"",""keyId"":0,""outputPrefixType"":-1}]}}".
+
+  Lemma facts :
+    keyset_ok ks = true /\ json_text_pj_of_keyset ks = text /\ keyset_of_json_text text = Some ks
+    /\ encrypted_ok info = true /\ json_text_pj_of_encrypted info = info_text
+    /\ encrypted_of_json_text info_text = Some info
+    (* every name of every table occurs in the text and is read through name_lookup *)
+    /\ map (fun k => jk_status k) (jks_keys ks) = [0; 1; 2; 3; 7; 4294967295]
+    /\ map (fun k => jk_prefix k) (jks_keys ks) = [0; 1; 2; 3; 4; 5]
+    /\ map (fun p => name_lookup status_names (fst p)) status_names = map (fun p => Some (snd p)) status_names
+    /\ map (fun p => name_lookup prefix_names (fst p)) prefix_names = map (fun p => Some (snd p)) prefix_names
+    /\ map (fun p => name_lookup material_names (fst p)) material_names = map (fun p => Some (snd p)) material_names
+    /\ map fst status_names = [bs "UNKNOWN_STATUS"; bs "ENABLED"; bs "DISABLED"; bs "DESTROYED"]
+    /\ map fst prefix_names = [bs "UNKNOWN_PREFIX"; bs "TINK"; bs "LEGACY"; bs "RAW"; bs "CRUNCHY"; bs "WITH_ID_REQUIREMENT"]
+    /\ map fst material_names = [bs "UNKNOWN_KEYMATERIAL"; bs "SYMMETRIC"; bs "ASYMMETRIC_PRIVATE"; bs "ASYMMETRIC_PUBLIC"; bs "REMOTE"]
+    (* the dangling exponent marker: read as the number, bare and in the string form *)
+    /\ keyset_of_json_text (bs "{""primaryKeyId"":1e}") = Some (mkJKS 1 [])
+    /\ keyset_of_json_text (bs "{""primaryKeyId"":""5e x"",""key"":[{""status"":2E ,""keyId"":1.0e}]}") = Some (mkJKS 5 [mkJK None 2 1 0])
+    /\ keyset_of_json_text (bs "{""primaryKeyId"":""1e""}") = None
+    /\ keyset_of_json_text (bs "{""primaryKeyId"":1e+}") = None
+    /\ json_parse_text num_keep (bs "{""primaryKeyId"":1e}") = None
+    /\ json_parse_text_pj num_keep (bs "{""primaryKeyId"":1e}") = Some [(n_primaryKeyId, JNum 1 [])].
+  Proof. repeat split; vm_compute; reflexivity. Qed.
+End EnumNamesExample.
